@@ -2343,10 +2343,10 @@ package analysis
 //@ func stripOAIGenForRef(opts, k, r)
 //@   aspect safe
 //@   requires optsWF(opts) && k in dom(opts.flattenContext.newRefs) && r == opts.flattenContext.newRefs[k] && len(r.parents) >= 1
-//@   modifies heaps DOC, heaps FREFS, opts.flattenContext.warnings, ghost failed
+//@   modifies heaps DOCW, opts.Spec.spec.Definitions, heaps FREFS, opts.flattenContext.warnings, ghost failed
 //@   ensures optsWF(opts)
 //@   ensures result1 == nil ==> failed == old(failed)
-//@   loop 1: modifies heaps DOC, heaps FREFS, opts.flattenContext.warnings, ghost failed
+//@   loop 1: modifies heaps DOCW, opts.Spec.spec.Definitions, heaps FREFS, opts.flattenContext.warnings, ghost failed
 //@   loop 2: modifies heap newRef, ghost failed
 //@   loop 3: modifies nothing
 //@   loop 1: invariant optsWF(opts) && r != nil && r.schema != nil && r.key in dom(opts.flattenContext.newRefs) && len(pr) >= 1 && strsNE(pr)
@@ -2359,11 +2359,11 @@ package analysis
 //@ func stripOAIGen(opts)
 //@   aspect safe
 //@   requires optsWF(opts) && idxKeysWF(opts.Spec)
-//@   modifies heaps DOC, heaps INDEX, heaps FREFS, opts.flattenContext.warnings, ghost failed
+//@   modifies heaps DOCW, opts.Spec.spec.Definitions, heaps INDEX, heaps FREFS, opts.flattenContext.warnings, ghost failed
 //@   ensures optsWF(opts) && idxKeysWF(opts.Spec) && optsSame(opts, old(opts.Spec), old(opts.Spec.spec), old(opts.flattenContext))
 //@   ensures result1 == nil ==> failed == old(failed)
 //@   loop 1: modifies heap newRef, ghost failed
-//@   loop 2: modifies heaps DOC, heaps FREFS, opts.flattenContext.warnings, ghost failed
+//@   loop 2: modifies heaps DOCW, opts.Spec.spec.Definitions, heaps FREFS, opts.flattenContext.warnings, ghost failed
 //@   loop 1: invariant optsWF(opts) && idxKeysWF(opts.Spec) && optsSame(opts, old(opts.Spec), old(opts.Spec.spec), old(opts.flattenContext))
 //@   loop 2: invariant optsWF(opts) && idxKeysWF(opts.Spec) && optsSame(opts, old(opts.Spec), old(opts.Spec.spec), old(opts.flattenContext))
 //@   loop 1: invariant failed == old(failed)
@@ -2392,11 +2392,11 @@ package analysis
 //@   aspect safe
 //@   requires isn != nil && isn.Spec != nil && isn.opts != nil && isn.opts.Spec != nil && isn.opts.Spec.spec != nil && len(key) >= 1 && aschema != nil && strfmt.Default != nil
 //@   requires isn.flattenContext != nil ==> ctxWF(isn.flattenContext)
-//@   modifies heaps DOC, heaps FREFS, isn.opts.flattenContext.warnings, heap map[string]*spec.Operation, heap any, ghost failed
+//@   modifies heaps DOCW, isn.Spec.Definitions, heaps FREFS, isn.opts.flattenContext.warnings, heap map[string]*spec.Operation, heap any, ghost failed
 //@   ensures isn.flattenContext != nil ==> ctxWF(isn.flattenContext)
 //@   ensures result == nil ==> failed == old(failed)
-//@   loop 1: modifies heaps DOC, heaps FREFS, isn.opts.flattenContext.warnings, heap map[string]*spec.Operation, heap any, ghost failed
-//@   loop 2: modifies heaps DOC, isn.opts.flattenContext.warnings, ghost failed
+//@   loop 1: modifies heaps DOCW, isn.Spec.Definitions, heaps FREFS, isn.opts.flattenContext.warnings, heap map[string]*spec.Operation, heap any, ghost failed
+//@   loop 2: modifies heaps DOCW, isn.Spec.Definitions, isn.opts.flattenContext.warnings, ghost failed
 //@   loop 1: invariant isn.flattenContext != nil ==> ctxWF(isn.flattenContext)
 //@   loop 2: invariant isn.flattenContext != nil ==> ctxWF(isn.flattenContext)
 //@   loop 2: invariant an != nil && idxKeysWF(an) && sch != nil
@@ -2407,8 +2407,8 @@ package analysis
 
 //@ func flattenAnonPointer(key, v, refsToReplace, namer, opts)
 //@   aspect safe
-//@   requires optsWF(opts) && len(key) >= 1 && refsToReplace != nil && namer != nil && namer.Spec != nil && namer.opts == opts && namer.flattenContext == opts.flattenContext
-//@   modifies heaps DOC, heaps FREFS, opts.flattenContext.warnings, heap map[string]*spec.Operation, heap any, map refsToReplace, ghost failed
+//@   requires optsWF(opts) && len(key) >= 1 && refsToReplace != nil && namer != nil && namer.Spec == opts.Spec.spec && namer.opts == opts && namer.flattenContext == opts.flattenContext
+//@   modifies heaps DOCW, opts.Spec.spec.Definitions, heaps FREFS, opts.flattenContext.warnings, heap map[string]*spec.Operation, heap any, map refsToReplace, ghost failed
 //@   ensures optsWF(opts)
 //@   ensures forall k string :: old(k in dom(refsToReplace)) ==> k in dom(refsToReplace)
 //@   ensures forall k in dom(refsToReplace) :: len(k) >= 1 || old(k in dom(refsToReplace))
@@ -2423,11 +2423,11 @@ package analysis
 //@ func namePointers(opts)
 //@   aspect safe
 //@   requires optsWF(opts) && idxKeysWF(opts.Spec)
-//@   modifies heaps DOC, heaps INDEX, heaps FREFS, opts.flattenContext.warnings, heap any, ghost failed
+//@   modifies heaps DOCW, opts.Spec.spec.Definitions, heaps INDEX, heaps FREFS, opts.flattenContext.warnings, heap any, ghost failed
 //@   ensures optsWF(opts) && idxKeysWF(opts.Spec) && optsSame(opts, old(opts.Spec), old(opts.Spec.spec), old(opts.flattenContext))
 //@   ensures result == nil ==> failed == old(failed)
 //@   loop 1: modifies opts.flattenContext.warnings, map refsToReplace, ghost failed
-//@   loop 2: modifies heaps DOC, heaps FREFS, opts.flattenContext.warnings, heap any, heap map[string]*spec.Operation, map refsToReplace, ghost failed
+//@   loop 2: modifies heaps DOCW, opts.Spec.spec.Definitions, heaps FREFS, opts.flattenContext.warnings, heap any, heap map[string]*spec.Operation, map refsToReplace, ghost failed
 //@   loop 1: invariant optsWF(opts) && idxKeysWF(opts.Spec) && optsSame(opts, old(opts.Spec), old(opts.Spec.spec), old(opts.flattenContext)) && refsToReplace != nil && fresh(refsToReplace) && (forall k in dom(refsToReplace) :: len(k) >= 1)
 //@   loop 2: invariant optsWF(opts) && optsSame(opts, old(opts.Spec), old(opts.Spec.spec), old(opts.flattenContext)) && refsToReplace != nil && (forall k in dom(refsToReplace) :: len(k) >= 1) && (forall i in 0..len(depthFirst) :: depthFirst[i] in dom(refsToReplace))
 //@   loop 2: invariant namer != nil && namer.Spec == opts.Spec.spec && namer.opts == opts && namer.flattenContext == opts.flattenContext
@@ -2437,10 +2437,10 @@ package analysis
 //@ func nameInlinedSchemas(opts)
 //@   aspect safe
 //@   requires optsWF(opts) && idxKeysWF(opts.Spec)
-//@   modifies heaps DOC, heaps INDEX, heaps FREFS, opts.flattenContext.warnings, heap any, ghost failed
+//@   modifies heaps DOCW, opts.Spec.spec.Definitions, heaps INDEX, heaps FREFS, opts.flattenContext.warnings, heap any, ghost failed
 //@   ensures optsWF(opts) && idxKeysWF(opts.Spec) && optsSame(opts, old(opts.Spec), old(opts.Spec.spec), old(opts.flattenContext))
 //@   ensures result == nil ==> failed == old(failed)
-//@   loop 1: modifies heaps DOC, heaps FREFS, opts.flattenContext.warnings, heap any, heap map[string]*spec.Operation, ghost failed
+//@   loop 1: modifies heaps DOCW, opts.Spec.spec.Definitions, heaps FREFS, opts.flattenContext.warnings, heap any, heap map[string]*spec.Operation, ghost failed
 //@   loop 1: invariant optsWF(opts) && idxKeysWF(opts.Spec) && optsSame(opts, old(opts.Spec), old(opts.Spec.spec), old(opts.flattenContext))
 //@   loop 1: invariant namer != nil && namer.Spec == opts.Spec.spec && namer.opts == opts && namer.flattenContext == opts.flattenContext
 //@   loop 1: invariant failed == old(failed)
@@ -2448,10 +2448,10 @@ package analysis
 //@ func stripPointersAndOAIGen(opts)
 //@   aspect safe
 //@   requires optsWF(opts) && idxKeysWF(opts.Spec)
-//@   modifies heaps DOC, heaps INDEX, heaps FREFS, opts.flattenContext.warnings, heap any, ghost failed
+//@   modifies heaps DOCW, opts.Spec.spec.Definitions, heaps INDEX, heaps FREFS, opts.flattenContext.warnings, heap any, ghost failed
 //@   ensures optsWF(opts) && idxKeysWF(opts.Spec) && optsSame(opts, old(opts.Spec), old(opts.Spec.spec), old(opts.flattenContext))
 //@   ensures result == nil ==> failed == old(failed)
-//@   loop 1: modifies heaps DOC, heaps INDEX, heaps FREFS, opts.flattenContext.warnings, heap any, ghost failed
+//@   loop 1: modifies heaps DOCW, opts.Spec.spec.Definitions, heaps INDEX, heaps FREFS, opts.flattenContext.warnings, heap any, ghost failed
 //@   loop 1: invariant optsWF(opts) && idxKeysWF(opts.Spec) && optsSame(opts, old(opts.Spec), old(opts.Spec.spec), old(opts.flattenContext))
 //@   loop 1: invariant failed == old(failed)
 
@@ -2461,17 +2461,17 @@ package analysis
 //@   aspect safe
 //@   requires optsWF(opts) && strsNE(entry.Keys)
 //@   requires newName != "" && opts.flattenContext.resolved[refStr] == newName
-//@   modifies heaps DOC, ghost failed
+//@   modifies heaps DOCW, opts.Spec.spec.Definitions, ghost failed
 //@   ensures result == nil ==> failed == old(failed)
 //@   loop 1: invariant failed == old(failed)
 //@ func importNewRef(entry, refStr, opts)
 //@   aspect safe
 //@   requires optsWF(opts) && strsNE(entry.Keys) && entry.Ref.String() != ""
-//@   modifies heaps DOC, heaps FREFS, opts.flattenContext.warnings, ghost failed
+//@   modifies heaps DOCW, opts.Spec.spec.Definitions, heaps FREFS, opts.flattenContext.warnings, ghost failed
 //@   ensures optsWF(opts)
 //@   ensures result == nil ==> failed == old(failed)
-//@   loop 1: modifies heaps DOC, ghost failed
-//@   loop 2: modifies heaps DOC, heaps FREFS, opts.flattenContext.warnings, ghost failed
+//@   loop 1: modifies heaps DOCW, opts.Spec.spec.Definitions, ghost failed
+//@   loop 2: modifies heaps DOCW, opts.Spec.spec.Definitions, heaps FREFS, opts.flattenContext.warnings, ghost failed
 //@   loop 1: invariant optsWF(opts) && sch != nil
 //@   loop 2: invariant optsWF(opts) && sch != nil
 //@   loop 1: invariant failed == old(failed)
@@ -2484,11 +2484,11 @@ package analysis
 //@ func importExternalReferences(opts)
 //@   aspect safe
 //@   requires optsBase(opts) && (opts.flattenContext != nil ==> ctxWF(opts.flattenContext)) && idxKeysWF(opts.Spec)
-//@   modifies heaps DOC, heaps FREFS, opts.flattenContext, opts.flattenContext.warnings, ghost failed
+//@   modifies heaps DOCW, opts.Spec.spec.Definitions, heaps FREFS, opts.flattenContext, opts.flattenContext.warnings, ghost failed
 //@   ensures optsWF(opts) && opts.Spec == old(opts.Spec) && opts.Spec.spec == old(opts.Spec.spec) && (old(opts.flattenContext) != nil ==> opts.flattenContext == old(opts.flattenContext)) && (old(opts.flattenContext) == nil ==> fresh(opts.flattenContext))
 //@   ensures result1 == nil ==> failed == old(failed)
 //@   loop 1: modifies nothing
-//@   loop 2: modifies heaps DOC, heaps FREFS, opts.flattenContext.warnings, ghost failed
+//@   loop 2: modifies heaps DOCW, opts.Spec.spec.Definitions, heaps FREFS, opts.flattenContext.warnings, ghost failed
 //@   loop 3: modifies heaps FREFS, ghost failed
 //@   loop 1: invariant forall i in 0..len(sortedRefStr) :: sortedRefStr[i] in dom(groupedRefs)
 //@   loop 2: invariant optsWF(opts) && revIdxWF(groupedRefs) && (forall i in 0..len(sortedRefStr) :: sortedRefStr[i] in dom(groupedRefs))
@@ -2500,10 +2500,10 @@ package analysis
 //@ func importReferences(opts)
 //@   aspect safe
 //@   requires optsBase(opts) && (opts.flattenContext != nil ==> ctxWF(opts.flattenContext)) && idxKeysWF(opts.Spec)
-//@   modifies heaps DOC, heaps INDEX, heaps FREFS, opts.flattenContext, opts.flattenContext.warnings, ghost failed
+//@   modifies heaps DOCW, opts.Spec.spec.Definitions, heaps INDEX, heaps FREFS, opts.flattenContext, opts.flattenContext.warnings, ghost failed
 //@   ensures optsWF(opts) && idxKeysWF(opts.Spec) && opts.Spec == old(opts.Spec) && opts.Spec.spec == old(opts.Spec.spec) && (old(opts.flattenContext) != nil ==> opts.flattenContext == old(opts.flattenContext))
 //@   ensures result == nil ==> failed == old(failed)
-//@   loop 1: modifies heaps DOC, heaps INDEX, heaps FREFS, opts.flattenContext, heap context, ghost failed
+//@   loop 1: modifies heaps DOCW, opts.Spec.spec.Definitions, heaps INDEX, heaps FREFS, opts.flattenContext, heap context, ghost failed
 //@   loop 1: invariant optsBase(opts) && (opts.flattenContext != nil ==> ctxWF(opts.flattenContext)) && idxKeysWF(opts.Spec) && opts.Spec == old(opts.Spec) && opts.Spec.spec == old(opts.Spec.spec) && (old(opts.flattenContext) != nil ==> opts.flattenContext == old(opts.flattenContext))
 //@   loop 1: invariant imported || err != nil ==> opts.flattenContext != nil
 //@   loop 1: invariant err == nil ==> failed == old(failed)
@@ -2532,24 +2532,26 @@ package analysis
 //@   requires opts != nil && opts.Spec != nil && opts.Spec.spec != nil
 //@   modifies heaps DOC, heaps INDEX
 //@   ensures idxKeysWF(opts.Spec) && opts.Spec.spec == old(opts.Spec.spec)
+//@   ensures opts.Spec.spec.Parameters == nil && opts.Spec.spec.Responses == nil
 
 //@ func removeUnusedSinglePass(opts)
 //@   aspect safe
 //@   requires opts != nil && opts.Spec != nil && opts.Spec.spec != nil
-//@   modifies heaps DOC, heaps INDEX
+//@   modifies heaps DOCW, opts.Spec.spec.Definitions, heaps INDEX
 //@   ensures opts.Spec.spec == old(opts.Spec.spec)
 
 //@ func removeUnused(opts)
 //@   aspect safe
 //@   requires opts != nil && opts.Spec != nil && opts.Spec.spec != nil
-//@   modifies heaps DOC, heaps INDEX
+//@   modifies heaps DOCW, opts.Spec.spec.Definitions, heaps INDEX
 //@   ensures opts.Spec.spec == old(opts.Spec.spec)
-//@   loop 1: modifies heaps DOC, heaps INDEX
+//@   loop 1: modifies heaps DOCW, opts.Spec.spec.Definitions, heaps INDEX
 //@   loop 1: invariant opts.Spec.spec == old(opts.Spec.spec)
 
 //@ func Flatten(opts)
 //@   aspect safe
 //@   requires opts.Spec != nil && opts.Spec.spec != nil && strfmt.Default != nil
+//@   ensures opts.RemoveUnused && result == nil ==> opts.Spec.spec.Parameters == nil && opts.Spec.spec.Responses == nil
 //@   modifies heaps DOC, heaps INDEX, heaps FREFS, heap any, ghost failed
 //@   ensures result == nil ==> failed == old(failed)
 
